@@ -713,7 +713,7 @@ func runE2E(f []string) (res string) {
 
 const cacheUnit = 2 * time.Second
 
-// cache <expiry: 0|1> <n> <step>*n   steps: get | pin:<id> | rot | exp | fail (next backend fetch fails)
+// cache <expiry: 0|1> <n> <step>*n   steps: get | pin:<id> | rot | exp | fail | tfail (next backend fetch fails with a permanent / temporary error)
 // expiry 1 = cacheUnit of real time; `exp` sleeps cacheUnit + 0.3 s.
 func runCache(f []string) string {
 	exp := time.Duration(hx.Atoi(f[0])) * cacheUnit
@@ -736,9 +736,13 @@ func runCache(f []string) string {
 			time.Sleep(cacheUnit + 300*time.Millisecond)
 			slept += cacheUnit + 300*time.Millisecond
 			out = append(out, "e")
-		case "fail":
+		case "fail", "tfail":
+			var e error = errors.New("backend down")
+			if sf[0] == "tfail" { // an error that httperror.Temporary classifies as transient
+				e = fmt.Errorf("backend briefly unavailable: %w", context.DeadlineExceeded)
+			}
 			tok.mu.Lock()
-			tok.errs["getKey"] = append(tok.errs["getKey"], errors.New("backend down"))
+			tok.errs["getKey"] = append(tok.errs["getKey"], e)
 			tok.mu.Unlock()
 			out = append(out, "f")
 		case "get", "pin":
